@@ -37,6 +37,13 @@ func runTranscriptR(seed int64, hid, nTx int, yield func(), restartEvery int) (d
 	rc := &RunCtx{ID: "C18", Tier: "quick", Seed: seed, Cov: NewCov()}
 	rc.Rand = newRand(seed*7919 + int64(hid)*104729 + 5)
 	gs := GenGenesis(rc.Rand, GenOpts{Unpaused: hid%2 == 0, WellFormed: true})
+	// registry entries of a width only a genesis file can hold (remote tokens and messengers that are not 32 bytes)
+	gs.TokenPairList = append(gs.TokenPairList,
+		ct.TokenPair{RemoteDomain: 90, RemoteToken: Structured32(0x21)[:20], LocalToken: "uusdc"},
+		ct.TokenPair{RemoteDomain: 90, RemoteToken: append(Structured32(0x22), 1), LocalToken: "uusdc"},
+		ct.TokenPair{RemoteDomain: 91, RemoteToken: nil, LocalToken: "uusdc"},
+		ct.TokenPair{RemoteDomain: 91, RemoteToken: Structured32(0x23)[:1], LocalToken: "ueure"})
+	gs.TokenMessengerList = append(gs.TokenMessengerList, ct.RemoteTokenMessenger{DomainId: 90, Address: Structured32(0x24)[:20]})
 	f, allow := DefaultFunding(rc.Rand, hid%3 == 1)
 	tcfg := chain.Config{Genesis: gs, Funded: f, Allowance: allow, Double: hid%3 == 1, Yield: yield}
 	// block times and proposers vary, the initial height does not: with an initial height above 1 the IAVL root hash of
